@@ -44,6 +44,14 @@ type Options struct {
 	FinMode        int    // L1 finalized pointer positions per build: FinLast, FinExtremes or FinAll
 	PrevLERNilToo  bool   // also retry with a stored header that lacks the previous LER (old Agglayer answers)
 	MaxStatesStage int    // safety cap on storage states per stage (0: none); hitting it is reported
+	// L2ReorgEpilogue: after the last stage, the L2 block holding the scenario's last L2 bridge is reorged away and
+	// replaced by a fork in which that bridge is a different one (another field variant); certificates are then
+	// built again WITH THE SAME long-lived flow / querier objects that built the certificates of the old fork.
+	L2ReorgEpilogue bool
+	// L1OrphanEpilogue: after the last stage, the L1 node answers with ANOTHER hash for the last L1 block the L1 info
+	// syncer holds (the block was reorged away on L1 and the syncer has not processed the reorg yet), with the
+	// finalized pointer at that block and one past it. Only when that block was never finalized in the scenario.
+	L1OrphanEpilogue bool
 }
 
 const (
@@ -82,6 +90,7 @@ type l1Client struct {
 	aggkittypes.BaseEthereumClienter // every other method: nil interface -> panic if ever called
 	w                                *world.World
 	finalized                        uint64
+	orphanFrom                       uint64 // > 0: blocks from here on have another hash on the L1 node than in the world
 }
 
 func (f *l1Client) HeaderByNumber(_ context.Context, n *big.Int) (*ethtypes.Header, error) {
@@ -92,6 +101,11 @@ func (f *l1Client) HeaderByNumber(_ context.Context, n *big.Int) (*ethtypes.Head
 		return nil, fmt.Errorf("fake L1: unexpected block tag %v", n)
 	}
 	if h := f.w.L1Header(num); h != nil {
+		if f.orphanFrom > 0 && num >= f.orphanFrom {
+			h2 := ethtypes.CopyHeader(h)
+			h2.Extra = append([]byte("the fork that replaced it/"), h.Extra...)
+			return h2, nil
+		}
 		return h, nil
 	}
 	// a finalized block the syncer has not seen yet: only its number is used
@@ -426,12 +440,142 @@ func Run(c *mc.Ctx, u mc.Unit, opt Options, oracle Oracle) {
 			}
 		}
 	}
+	if opt.L1OrphanEpilogue {
+		built += x.l1OrphanEpilogue(p, states, lastL1)
+	}
+	if opt.L2ReorgEpilogue {
+		built += x.l2ReorgEpilogue(p, states, lastL1)
+	}
 	if built > 0 {
 		c.NonTrivial()
 		c.Witness("scenarios_with_certificates")
 	}
 	c.Obs("scenario [%s]: %d L2 blocks, %d storage states, %d certificates built", world.OpsString(p.Ops), len(w.L2Blocks),
 		len(states), built)
+}
+
+// l1OrphanEpilogue: see Options.L1OrphanEpilogue. A certificate built in that situation must not name an L1 info
+// root that contains a leaf of the orphaned block (refusing to build one is fine).
+func (x *exec) l1OrphanEpilogue(p Params, states []state, lastL1 uint64) int {
+	c, w := x.c, x.w
+	if lastL1 == 0 || w.Finalized >= lastL1 || len(w.L2Blocks) == 0 {
+		return 0
+	}
+	below, inBlock := uint32(0), 0
+	for _, l := range w.ObservableOrAllLeaves() {
+		if l.Block < lastL1 {
+			below++
+		} else {
+			inBlock++
+		}
+	}
+	if inBlock == 0 {
+		return 0
+	}
+	x.l1.orphanFrom = lastL1
+	defer func() { x.l1.orphanFrom = 0 }()
+	c.Witness("l1_orphan_epilogues")
+	stage := w.L2Blocks[len(w.L2Blocks)-1].Num
+	n := 0
+	for _, s := range states {
+		if err := x.install(s); err != nil {
+			panic(err)
+		}
+		for _, fin := range []uint64{lastL1, lastL1 + 1} {
+			b, err := x.build(s, stage, 0, fin, false)
+			if err != nil || b == nil {
+				c.Witness("no_certificate_while_the_syncer_holds_an_orphaned_block")
+				continue
+			}
+			n++
+			b.Prev += fmt.Sprintf("+L1-block-%d-orphaned", lastL1)
+			x.c.AddEvals(1)
+			if b.Cert.L1InfoTreeLeafCount > below {
+				c.Failf("l1-info-root/of-a-block-the-l1-node-no-longer-has", "%s: the L1 node answers with another hash for block %d (it was reorged away; "+
+					"the L1 info syncer still holds the old block), finalized pointer at %d: the certificate names an L1 info root with %d leaves, "+
+					"but only %d leaves are in blocks below %d", b.Where(), lastL1, fin, b.Cert.L1InfoTreeLeafCount, below, lastL1)
+				continue
+			}
+			x.oracle(x.c, b)
+		}
+	}
+	return n
+}
+
+// l2ReorgEpilogue: see Options.L2ReorgEpilogue. Returns the number of certificates built.
+func (x *exec) l2ReorgEpilogue(p Params, states []state, lastL1 uint64) int {
+	c, w := x.c, x.w
+	idx := -1
+	for i, o := range p.Ops {
+		switch o.Kind {
+		case world.L2Deposit:
+			idx = i
+		case world.VerifyL2:
+			idx = -1 // the L1 side (rollup exit tree, info leaves) would depend on the replaced bridge
+		}
+	}
+	if idx < 0 || len(w.L2Deps) == 0 || lastL1 == 0 {
+		return 0
+	}
+	ops2 := append([]world.Op{}, p.Ops...)
+	ops2[idx].A = (ops2[idx].A + 2) % 4 //nolint:mnd // another field variant with the same destination network
+	w2, err := world.Build(ops2)
+	if err != nil || len(w2.L2Blocks) != len(w.L2Blocks) || len(w2.L1Blocks) != len(w.L1Blocks) {
+		c.Obs("l2-reorg epilogue skipped: the variant scenario is not a scenario (%v)", err)
+		return 0
+	}
+	k := w.L2Deps[len(w.L2Deps)-1].Block
+	if k == 0 {
+		return 0 // the bridge is in a block that was never closed
+	}
+	if err := x.st.L2Bridge.VerifStore().Reorg(x.ctx, k); err != nil {
+		c.Failf("world-sanity/l2-store-reorg-fails", "scenario [%s]: Reorg(%d): %v", world.OpsString(p.Ops), k, err)
+		return 0
+	}
+	last := uint64(0)
+	for _, blk := range w2.L2Blocks {
+		if blk.Num < k {
+			continue
+		}
+		if err := w2.LoadL2Block(x.ctx, x.st, blk); err != nil {
+			c.Failf("world-sanity/l2-store-rejects-block", "scenario [%s] after Reorg(%d): %v", world.OpsString(ops2), k, err)
+			return 0
+		}
+		last = blk.Num
+	}
+	if err := w2.CheckL2(x.ctx, x.st, last); err != nil {
+		c.Failf("world-sanity/l2-store-differs-from-reference", "scenario [%s] after Reorg(%d): %v", world.OpsString(ops2), k, err)
+		return 0
+	}
+	x.w, x.l1.w = w2, w2
+	c.Witness("l2_reorg_epilogues")
+	n := 0
+	for _, s := range states {
+		ok := true
+		for _, r := range s.chain {
+			if r.hdr.Status == agglayertypes.Settled && r.hdr.ToBlock >= k {
+				ok = false // that certificate settled blocks of the dropped fork
+			}
+		}
+		if !ok {
+			continue
+		}
+		if err := x.install(s); err != nil {
+			panic(err)
+		}
+		for _, size := range x.opt.SizeVariants {
+			b, err := x.build(s, last, size, lastL1, false)
+			if err != nil || b == nil {
+				continue
+			}
+			b.Prev += "+after-L2-reorg@" + fmt.Sprint(k)
+			x.c.AddEvals(1)
+			x.oracle(x.c, b)
+			n++
+			c.Witness("certificates_built_after_an_l2_reorg")
+		}
+	}
+	return n
 }
 
 func firstLine(err error) string {
